@@ -195,6 +195,8 @@ class ApproximationScheme(object):
                 # data is the same for all colored approxs so we only need the first
                 data = self._get_approx_data(system, wrt, meta)
                 break
+        else:
+            return  # this scheme has no colored wrt
 
         outputs = system._outputs
         inputs = system._inputs
